@@ -713,6 +713,17 @@ class EmptyListener:
     """A listener without a single callback (module-level: machines that carry one can still be pickled)."""
 
 
+class SharedHelper:
+    """An external helper object handed to the declaration as `helper.record`: every callback given this way is a bound
+    method of this ONE function on its own instance - a.record and b.record are two callbacks, not one."""
+
+    def __init__(self, fn):
+        self._fn = fn
+
+    def record(self, *, event=None, source=None, target=None, state=None, machine=None):
+        return self._fn(event=event, source=source, target=target, state=state, machine=machine)
+
+
 class ForwardingProxy:
     def __init__(self, target):
         self.__dict__["_target"] = target
@@ -798,6 +809,8 @@ class Built:
                                        if cb["prov"] == p and cb["style"] in ("name", "convention") and c in funcs}
                                    for p in by_prov}
 
+        recorders = self.__dict__.setdefault("recorders", {})
+
         def ref(c, cb):
             style = cb["style"]
             if style in ("name", "property"):
@@ -805,6 +818,8 @@ class Built:
             if style == "event":
                 return cb["evcb"]        # an event of the machine used as an action
             if style == "callable":
+                if d.get("shared_bound") and not cb["coro"] and not cb.get("defer") and not cb.get("alias"):
+                    return recorders.setdefault(c, SharedHelper(funcs[c][1])).record
                 return funcs[c][1]
             if style == "method":
                 return funcs[c][0]
